@@ -13,3 +13,32 @@ Proof.
   exists rk, pops. split; assumption.
 Qed.
 Print Assumptions C18_rank_pops_bound.
+
+(** The augmenter makes exactly n(n-1)/2 path queries (each a BFS bounded by n+e), and the whole
+    `build()` returns with both counters bounded by n*n. *)
+From FG Require Import TopoFacts AugFacts.
+Theorem C18_build_work_bound : forall ops,
+  let B := builder_run ops in
+  exists G pops queries, build B = BOk G pops queries /\
+    pops <= ncount B * ncount B /\ 2 * queries = ncount B * (ncount B - 1).
+Proof.
+  intros ops B. destruct (build_total_spec B (builder_wf ops)) as [G [pops [queries [Hb Hok]]]].
+  exists G, pops, queries. split; [exact Hb|]. split; [apply (bo_pops _ _ _ _ Hok) | apply (bo_queries _ _ _ _ Hok)].
+Qed.
+Print Assumptions C18_build_work_bound.
+
+(** Non-vacuity / regression witness: on the layered 2 x 8 graph the repaired relaxation pops 16
+    times; the algorithm as it stood before the repair (child re-queued unconditionally) pops 510
+    times, more than n*n = 256 (it counts root-to-node paths). *)
+Definition layered2 (layers : nat) : list edge :=
+  flat_map (fun l => [(2*l, 2*l+2, Logic); (2*l, 2*l+3, Logic); (2*l+1, 2*l+2, Logic); (2*l+1, 2*l+3, Logic)]) (seq 0 (layers - 1)).
+Example C18_example_repaired : snd (fst (rank_calc 16 (layered2 8))) = 16.
+Proof. vm_compute. reflexivity. Qed.
+Example C18_refuted_push_always :
+  exists n es, wfg n es /\ let '(_, pops, oof) := rank_calc_gen true 2000 n es in oof = false /\ n * n < pops.
+Proof.
+  exists 16, (layered2 8). split.
+  - pose proof (builder_wf (map (fun i => AddFn (mkFn i [] [])) (seq 0 16) ++ map (fun e => AddLogic (esrc e) (edst e)) (layered2 8))) as H.
+    vm_compute in H. exact H.
+  - vm_compute. split; [reflexivity | lia].
+Qed.
